@@ -32,7 +32,12 @@ Pipes == [ie    |-> <<"init", "extend">>,
           iprsep |-> <<"init_prop", "resample_sys", "extend_prop">>,
           ierce |-> <<"init", "extend", "resample_cat", "extend">>,
           iersje |-> <<"init", "extend", "resample_sys", "rejuv", "extend">>,
-          ijrcj |-> <<"init", "rejuv", "resample_cat", "rejuv">>]
+          ijrcj |-> <<"init", "rejuv", "resample_cat", "rejuv">>,
+          \* the ESS-triggered resampling step of rejuvenation_smc (resample iff ESS < N div 2; needs N >= 4 to fire)
+          ipq   |-> <<"init_prop", "essr">>,
+          ipqe  |-> <<"init_prop", "essr", "extend">>,
+          ieq   |-> <<"init", "essr", "extend", "essr">>,
+          ieeq  |-> <<"init", "extend", "extend", "essr">>]
 ObsSeqs == [a |-> <<1, 0, 2>>, b |-> <<2, 2, 1>>, c |-> <<0, 1, 1>>]
 Pipeline == Pipes[PipeName]
 Obs == ObsSeqs[ObsName]
@@ -116,6 +121,23 @@ DoResampleCat ==
        /\ mass' = RMul(mass, <<ProdW(W, anc, N), tot ^ N>>)
        /\ hist' = Append(hist, [move |-> Move, anc |-> anc, W |-> W, lw |-> [i \in 1..N |-> 0]])
   /\ t' = t + 1 /\ UNCHANGED tobs
+(* the adaptive step of rejuvenation_smc: lax.cond(ess < n_particles // 2, resample, identity) - categorical resampling *)
+EssLow(parts) == LET W == IntW(parts)
+                     s1 == Sum(W, 1..N)
+                     s2 == Sum([i \in 1..N |-> W[i] * W[i]], 1..N)
+                 IN s1 * s1 < (N \div 2) * s2
+DoEssResample ==
+  /\ pc # <<>> /\ Move = "essr"
+  /\ IF EssLow(pc)
+     THEN \E anc \in [1..N -> 1..N] :
+            LET W == IntW(pc) tot == Sum(W, 1..N) IN
+            /\ pc' = Resampled(anc)
+            /\ zacc' = RMul(zacc, MeanW(pc))
+            /\ mass' = RMul(mass, <<ProdW(W, anc, N), tot ^ N>>)
+            /\ hist' = Append(hist, [move |-> Move, fired |-> TRUE, anc |-> anc, W |-> W, lw |-> [i \in 1..N |-> 0]])
+     ELSE /\ UNCHANGED <<pc, zacc, mass>>
+          /\ hist' = Append(hist, [move |-> Move, fired |-> FALSE, anc |-> [i \in 1..N |-> i], W |-> IntW(pc), lw |-> [i \in 1..N |-> pc[i].lw]])
+  /\ t' = t + 1 /\ UNCHANGED tobs
 DoResampleSys ==
   /\ pc # <<>> /\ Move = "resample_sys"
   /\ LET W == IntW(pc) tot == Sum(W, 1..N) IN
@@ -145,7 +167,7 @@ DoRejuv ==
   /\ t' = t + 1 /\ UNCHANGED <<tobs, zacc>>
 
 Next == t <= Len(Pipeline) /\ (DoInit(FALSE) \/ DoInit(TRUE) \/ DoExtend(FALSE) \/ DoExtend(TRUE)
-                               \/ DoResampleCat \/ DoResampleSys \/ DoRejuv)
+                               \/ DoResampleCat \/ DoResampleSys \/ DoEssResample \/ DoRejuv)
 Spec == Init /\ [][Next]_vars
 
 (* ---- Contract ---- *)
@@ -163,5 +185,13 @@ ASSUME \A i \in 1..12 : TLCSet(100 + i, <<0, 1>>)
 Accumulate == (pc # <<>>) => TLCSet(100 + t, RAdd(TLCGet(100 + t), RMul(mass, Zhat)))
 NObs(tt) == Cardinality({i \in 1..(tt - 1) : Pipeline[i] \in {"init", "init_prop", "extend", "extend_prop"}})
 Unbiased == \A tt \in 2..(Len(Pipeline) + 1) : TLCGet(100 + tt) = Evidence(NObs(tt))
+(* estimate-weighted particle averages are unbiased for the unnormalised posterior integrals: for every latent value v,
+   E[ Zhat * sum_i wbar_i [z_i = v] ] = p(z_n = v, x_1..n)   (the forward vector), after every move *)
+WAvg(v) == LET W == IntW(pc) IN Norm(<<Sum([i \in 1..N |-> IF pc[i].z = v THEN W[i] ELSE 0], 1..N), Sum(W, 1..N)>>)
+ASSUME \A i \in 1..12 : \A v \in V : TLCSet(200 + 10 * i + v, <<0, 1>>)
+AccumulatePost == (pc # <<>>) => \A v \in V : TLCSet(200 + 10 * t + v, RAdd(TLCGet(200 + 10 * t + v), RMul(RMul(mass, Zhat), WAvg(v))))
+PostUnbiased == \A tt \in 2..(Len(Pipeline) + 1) : \A v \in V :
+                   TLCGet(200 + 10 * tt + v) = Norm(<<Alpha(NObs(tt))[v], Pow2(4 * NObs(tt))>>)
+AllUnbiased == Unbiased /\ PostUnbiased
 PrintHist == (t = Len(Pipeline) + 1) => PrintT(<<"BEH", hist, mass, Zhat>>)
 =============================================================================
